@@ -55,6 +55,10 @@ if __name__ == "__main__":
         if a == "--kind":
             kind = sys.argv[i + 1]
     js = [j for j in jobs() if (only is None or j[0] in only) and (kind is None or j[1] == kind)]
+    if "--cross" in sys.argv:
+        # every neutral change against every property (a change must not alarm any check)
+        allp = [f"C{i:02d}" for i in range(1, 21)]
+        js = [(p, k, f"{lab} @{p}", path) for (own, k, lab, path) in jobs() if k == "N" for p in allp if p != own]
     with ProcessPoolExecutor(16) as ex:
         res = list(ex.map(run, js))
     tally = {}
